@@ -33,7 +33,7 @@ POLE_MARGIN = 1e-6
 
 def cases(tier, seed):
     rng = np.random.default_rng([seed, 1313])
-    n_single, n_mesh = (330, 30) if tier == "quick" else (7000, 500)
+    n_single, n_mesh = (330, 30) if tier == "quick" else (40000, 2500)
     for i in range(n_single):
         yield {"kind": "single", "k": int(rng.integers(3, 9)), "radius": float(10 ** rng.uniform(-0.3, math.log10(60))),
                "fseed": int(rng.integers(0, 10**6)), "placement": gen.FACE_PLACEMENTS[i % len(gen.FACE_PLACEMENTS)],
